@@ -606,6 +606,24 @@ class Discharger:
                 recv = ("len-of", ap_str(ap))
             else:
                 recv = c03.val_key(self.strip_deref(fn.apath(t["args"][0])))
+        # how long the container has to be for this access: pop/first/remove(0)/[0] need one element, `[i]` needs i+1, `[k..]` and
+        # `[..k]` need k; anything else is not decided by a length test
+        need = 1
+        if index:
+            iop = s.term["msg"]["b"] if s.kind == "assert" else (s.term["args"][1] if len(s.term.get("args", [])) > 1 else None)
+            need = None
+            if iop is not None:
+                c = const_int(iop)
+                iap = fn.apath(iop)
+                if c is not None:
+                    need = c + 1
+                elif iap[0][0] == "agg" and str(iap[0][1]).endswith(("RangeFrom::RangeFrom", "RangeFrom", "RangeTo::RangeTo", "RangeTo")) and len(iap[0][2]) == 1 \
+                        and iap[0][2][0][0][0] == "const" and isinstance(iap[0][2][0][0][1], int) and not iap[1]:
+                    need = iap[0][2][0][0][1]
+            if need is None:
+                need = 1 if s.kind != "assert" and not index else None
+        if need is None:
+            return None
         for g in fn.guards_of(s.bb):
             d = fn.guard_desc(g)
             if d[0] == "bool":
@@ -616,16 +634,34 @@ class Discharger:
                         if x[0][0] == "call" and x[0][1].endswith(("::len",)) and y[0][0] == "const" and isinstance(y[0][1], int):
                             cont = c03.val_key(self.strip_deref(x[0][2][0]))
                             k = y[0][1]
-                            nonempty = (r[1] == "Eq" and d[2] and k >= 1) or (r[1] == "Ne" and not d[2] and k >= 1) or (r[1] in ("Ge",) and d[2] and k >= 1 and x is r[2]) or (r[1] == "Gt" and d[2] and k >= 0 and x is r[2]) or (r[1] == "Ne" and d[2] and k == 0)
-                            if nonempty and same_key(cont, recv):
-                                return ("D11", "behind a length test (`len() %s %d`) of the same container" % (r[1], k))
-                if r[0] == "call" and r[1].endswith(("::is_empty",)) and not d[2]:
+                            have = 0
+                            if r[1] == "Eq" and d[2]:
+                                have = k
+                            elif r[1] == "Ne" and not d[2]:
+                                have = k
+                            elif r[1] == "Ge" and d[2] and x is r[2]:
+                                have = k
+                            elif r[1] == "Gt" and d[2] and x is r[2]:
+                                have = k + 1
+                            elif r[1] == "Lt" and not d[2] and x is r[2]:
+                                have = k
+                            elif r[1] == "Le" and not d[2] and x is r[2]:
+                                have = k + 1
+                            elif r[1] == "Ne" and d[2] and k == 0:
+                                have = 1
+                            if have >= need and have >= 1 and same_key(cont, recv):
+                                return ("D11", "behind a length test (`len() %s %d`) of the same container (needs %d element(s))" % (r[1], k, need))
+                if r[0] == "call" and r[1].endswith(("::is_empty",)) and not d[2] and need <= 1:
                     cont = c03.val_key(self.strip_deref(r[2][0]))
                     if same_key(cont, recv):
                         return ("D11", "behind `!is_empty()` of the same container")
-            if d[0] == "variant" and d[3] == "Some":
+            if d[0] == "variant" and d[3] in ("Some", "Continue", "Ok") and need <= 1:
                 inner = self.peel(d[1])
-                if inner[0][0] == "call" and inner[0][1].endswith(("<impl [T]>::first", "<impl [T]>::last")):
+                # `first().ok_or_else(..)?`: the success edge of the `?` is the Some edge of first()
+                for _ in range(3):
+                    if inner[0][0] == "call" and inner[0][2] and inner[0][1].endswith(("Try>::branch", "Option::<T>::ok_or_else", "Option::<T>::ok_or")) and not inner[1]:
+                        inner = inner[0][2][0]
+                if inner[0][0] == "call" and inner[0][1].endswith(("<impl [T]>::first", "<impl [T]>::last")) and (d[3] == "Some" or inner is not self.peel(d[1])):
                     cont = c03.val_key(self.strip_deref(inner[0][2][0]))
                     if same_key(cont, recv):
                         return ("D11", "behind first()/last() of the same container being Some")
